@@ -4,6 +4,7 @@ import SwV.Common.Drv
 import SwV.Model.C02
 import SwV.Model.C03
 import SwV.Spec.C03
+import SwV.Gen.C03
 open SwV.Drv SwV.Model.C02 SwV.Model.C03 SwV.Spec.C03
 
 structure St where
@@ -14,9 +15,12 @@ structure St where
   idx : Bytes := []
   snapped : Bool := false
 
+/-- the index reader's batch size, regenerated from the source (`idx.RowsToRead`) -/
+def rows : Nat := SwV.Gen.C03.RowsToRead.toNat
+
 def tokB (s : String) : Bytes := (hexDecode s).getD []
 
-def newId : Nat := 900
+def newId : Nat := 9000000
 def newCookie : Nat := 0x1234
 def newData : Bytes := "after-crash".toUTF8.toList
 
@@ -87,7 +91,9 @@ def step (st : St) (n : Nat) (ln : Line) : St × List String :=
   let a := ln.args
   let o := ln.outs
   match ln.op with
-  | "config" => (st, ["COV config"])
+  | "config" =>
+    -- the harness reports the constants of the code it was linked with; the model uses the regenerated ones
+    (st, diff n ln [] ++ (if a == ["4", toString rows] then [] else [s!"DIFF {n} config model=[4 {rows}] impl={a}"]) ++ ["COV config"])
   | "reset" => ({}, ["COV reset"])
   | "put" =>
     let op := Op.put (tokNat (a.getD 0 "")) (tokNat (a.getD 1 "")) (tokB (a.getD 2 "-"))
@@ -105,14 +111,14 @@ def step (st : St) (n : Nat) (ln : Line) : St × List String :=
     if !st.snapped then (st, diff n ln ["nosnap"]) else
     let p := tokNat (a.getD 0 ""); let q := tokNat (a.getD 1 "")
     let ids := ((a.getD 2 "").splitOn ",").map tokNat
-    let v := load crc32c (st.dat.take p) (st.idx.take q)
+    let v := load rows crc32c (st.dat.take p) (st.idx.take q)
     let model :=
       if v.panicked then
         ["panic", "0", "0", "0"] ++ ids.map (fun id => s!"{id}:novol") ++ ["w:novol", "rb:novol", "0", "0"]
       else
         let reads := ids.map fun id => s!"{id}:{readTok (readNeedle crc32c v id)}"
         let (v', w) := writeNeedle crc32c v (mkNeedle newId newCookie newData 0)
-        ["ok", if v.readOnly then "1" else "0", toString v.dat.bytes.length, toString v.idx.length] ++ reads ++
+        [if v.failed then "failed" else "ok", if v.readOnly then "1" else "0", toString v.dat.bytes.length, toString v.idx.length] ++ reads ++
           ["w:" ++ writeTok w, "rb:" ++ readTok (readNeedle crc32c v' newId), toString v'.dat.bytes.length, toString v'.idx.length]
     -- judge over the implementation's outputs
     let k := ids.length
@@ -132,6 +138,8 @@ def step (st : St) (n : Nat) (ln : Line) : St × List String :=
       ++ (if v.dat.bytes.length < p then ["COV crash.dat-truncated"] else [])
       ++ (if v.idx.length < q then ["COV crash.idx-truncated"] else [])
       ++ (if q % 16 ≠ 0 then ["COV crash.torn-idx"] else [])
+      ++ (if q % 16 = 0 ∧ q > 0 ∧ (q / 16) % rows = 0 then ["COV crash.idx-entries-multiple-of-batch"] else [])
+      ++ (if v.failed then ["COV crash.load-failed"] else [])
       ++ (if p % 8 ≠ 0 ∧ ¬ v.panicked ∧ v.dat.bytes.length = p then ["COV crash.unaligned-tail-kept"] else [])
       ++ (if fails.isEmpty ∧ adm then ["COV crash.judged-ok"] else [])
     (st, diff n ln model ++ fails ++ cov)
